@@ -57,6 +57,16 @@ pub fn take_panic() -> Option<String> {
 fn single_history(rep: &mut Report, rng: &mut Rng, idx: u64) {
     let sc = Scratch::new("c04");
     let path = sc.join("dir/sub/app.log");
+    // now and then the configured path is a symbolic link (current.log -> the dated file): the records belong
+    // into the file behind it, in both open modes, and the link stays a link
+    let symlinked = rng.chance(1, 6);
+    let real = if symlinked { sc.join("real/2024-05-17.log") } else { path.clone() };
+    if symlinked {
+        std::fs::create_dir_all(path.parent().unwrap()).unwrap();
+        std::fs::create_dir_all(real.parent().unwrap()).unwrap();
+        std::os::unix::fs::symlink(&real, &path).unwrap();
+        rep.count("histories_through_a_symbolic_link", 1);
+    }
     let append_mode = rng.chance(2, 3);
     // pre-existing content: frames of an "old" writer (tid 900) or none
     let mut pre: Vec<u8> = vec![];
@@ -66,14 +76,14 @@ fn single_history(rep: &mut Report, rng: &mut Rng, idx: u64) {
         for s in 0..(1 + rng.usize_below(4)) as u32 {
             pre.extend(frame(900, s, *rng.pick(&SIZES[..10])));
         }
-        std::fs::write(&path, &pre).unwrap();
+        std::fs::write(&real, &pre).unwrap();
     }
     let (enc, nl, enc_name) = pick_encoder(rng);
     // a quarter of the histories build the appender through the config-file machinery (kind: file);
     // an omitted `append` key means append (documented default)
     let via_config = !nl && rng.chance(1, 2);
     let append_key: Option<bool> = if via_config && append_mode && rng.chance(1, 2) { None } else { Some(append_mode) };
-    let desc = json!({"append_mode": append_mode, "pre_existing_bytes": pre.len(), "encoder": enc_name,
+    let desc = json!({"append_mode": append_mode, "pre_existing_bytes": pre.len(), "encoder": enc_name, "path_is_a_symbolic_link": symlinked,
         "built_from_config_document": if via_config { Some(match append_key { Some(b) => format!("append: {}", b), None => "append key omitted".into() }) } else { None }});
     let app: Box<dyn Append> = if via_config {
         rep.count("histories_built_from_config_documents", 1);
@@ -96,11 +106,15 @@ fn single_history(rep: &mut Report, rng: &mut Rng, idx: u64) {
             }
         }
     };
-    let after_open = std::fs::read(&path).unwrap_or_default();
+    let after_open = std::fs::read(&real).unwrap_or_default();
     let mut expect: Vec<u8> = if append_mode { pre.clone() } else { vec![] };
     if after_open != expect {
         rep.violation(if append_mode { "C04:append-mode-lost-existing-content" } else { "C04:truncate-mode-kept-content-at-open" },
             json!({"case": desc, "file_after_open": show_bytes(&after_open), "expected": show_bytes(&expect)}));
+        return;
+    }
+    if symlinked && !std::fs::symlink_metadata(&path).map(|m| m.file_type().is_symlink()).unwrap_or(false) {
+        rep.violation("C04:symbolic-link-replaced-at-open", json!({"case": desc}));
         return;
     }
     let n = 1 + rng.usize_below(25);
@@ -125,7 +139,7 @@ fn single_history(rep: &mut Report, rng: &mut Rng, idx: u64) {
         expect.extend(frame(wid, seq, len));
         rep.count("appends_observed_after_return", 1);
         // an independent reader must see the complete record as soon as append returned
-        let got = std::fs::read(&path).unwrap_or_default();
+        let got = std::fs::read(&real).unwrap_or_default();
         if got != expect {
             let sig = if got.len() < expect.len() && expect.starts_with(&got) {
                 "C04:not-visible-at-return"
@@ -146,7 +160,7 @@ fn single_history(rep: &mut Report, rng: &mut Rng, idx: u64) {
     match app2 {
         Err(e) => rep.violation("C04:rebuild-failed", json!({"case": desc, "error": e.to_string()})),
         Ok(app2) => {
-            let got = std::fs::read(&path).unwrap_or_default();
+            let got = std::fs::read(&real).unwrap_or_default();
             let want: Vec<u8> = if reopen_append { expect.clone() } else { vec![] };
             if got != want {
                 rep.violation(if reopen_append { "C04:reopen-append-lost-content" } else { "C04:reopen-truncate-kept-content" },
@@ -155,7 +169,7 @@ fn single_history(rep: &mut Report, rng: &mut Rng, idx: u64) {
             let a = append_frame(&app2, 2, 0, 10, true);
             let mut want2 = want;
             want2.extend(frame(2, 0, 10));
-            let got2 = std::fs::read(&path).unwrap_or_default();
+            let got2 = std::fs::read(&real).unwrap_or_default();
             if !a.ok || got2 != want2 {
                 rep.violation("C04:content-after-reopen", json!({"case": desc, "file_len": got2.len(), "expected_len": want2.len()}));
             }
@@ -172,11 +186,15 @@ fn single_history(rep: &mut Report, rng: &mut Rng, idx: u64) {
 /// other: every acknowledged record must stay readable, in the order of the calls.
 fn two_appenders(rep: &mut Report, rng: &mut Rng, idx: u64) {
     let sc = Scratch::new("c04t");
-    let path = sc.join("shared.log");
+    let mut path = sc.join("shared.log");
     let mut expect: Vec<u8> = vec![];
     if rng.chance(1, 2) {
         expect.extend(frame(900, 0, 30));
         std::fs::write(&path, &expect).unwrap();
+    } else if rng.chance(1, 2) {
+        // the first appender has to create the directory
+        path = sc.join("fresh/dir/shared.log");
+        rep.count("two_appender_histories_in_a_directory_that_did_not_exist", 1);
     }
     let mk = || FileAppender::builder().encoder(Box::new(ChunkEnc { pieces: 1 })).build(&path);
     let (a, b) = match (mk(), mk()) {
